@@ -187,7 +187,9 @@ func (w *world) playReadYourWrites(r *ring.Ring, key uint32, wr, read ring.Repli
 	wcalls := 0
 	prefix := fmt.Sprintf("ryw%d-", w.rywSeq)
 	s.Go(prefix+"write", func() {
-		werr = ring.DoBatchWithOptions(context.Background(), ring.Write, r, []uint32{key}, func(inst ring.InstanceDesc, _ []int) error {
+		// the executor works on the replica set that was enumerated (a lookup a few nanoseconds later may see
+		// a heartbeat that has just crossed the timeout)
+		werr = ring.DoBatchWithOptions(context.Background(), ring.Write, frozenLookup{r, wr}, []uint32{key}, func(inst ring.InstanceDesc, _ []int) error {
 			s.Locked(func() { wcalls++ })
 			s.Park(prefix + "w-" + inst.Id)
 			if !ok(acked, inst.Id) {
@@ -242,6 +244,18 @@ func (w *world) playReadYourWrites(r *ring.Ring, key uint32, wr, read ring.Repli
 	}
 	s.Fail("stale-read", "", "key %d: value written with acknowledgements from %v was not returned by the quorum read answered by %v (results %v)", key, acked, answering, results)
 }
+
+// frozenLookup answers every key with the replica set computed at the observation instant.
+type frozenLookup struct {
+	r  *ring.Ring
+	rs ring.ReplicationSet
+}
+
+func (f frozenLookup) Get(uint32, ring.Operation, []ring.InstanceDesc, []string, []string) (ring.ReplicationSet, error) {
+	return ring.ReplicationSet{Instances: append([]ring.InstanceDesc(nil), f.rs.Instances...), MaxErrors: f.rs.MaxErrors, MaxUnavailableZones: f.rs.MaxUnavailableZones, ZoneAwarenessEnabled: f.rs.ZoneAwarenessEnabled}, nil
+}
+func (f frozenLookup) ReplicationFactor() int { return f.r.ReplicationFactor() }
+func (f frozenLookup) InstancesCount() int    { return f.r.InstancesCount() }
 
 // drainPrefix releases the parked tasks whose name starts with prefix until none is left.
 func (w *world) drainPrefix(prefix string) {
